@@ -33,6 +33,12 @@ TRUSTED_BASE = [
     "insertion-ordered dicts), math.isclose/ceil, NumPy (zeros, copy, basic+slice indexing, row views alias their "
     "base, flatten row-major fresh, array_equal, random.rand in [0,1)), Gymnasium (Discrete/MultiDiscrete/Box "
     "constructors, Env.reset(seed) only touches self.np_random)",
+    "address strings of scenario documents (loader contracts): str((a, b)) of two ints is a canonical key, eval() is a pure "
+    "function of the string that yields a pair or fails, and inverts str() on canonical keys (uninterpreted functions "
+    "ADDR_STR / eval_fst / eval_snd with type tags; pyvc/builtins.py)",
+    "induction principle: lemma obligations named `lemma.*.induction-base` / `-step` are closed formulas over a fresh "
+    "function symbol; 'base and step hold, hence the property holds for every index' is the meta-step (used for the "
+    "block-start function of load_action_list)",
     "reachable states are over-approximated by well-formed states (WF, plus Inv where stated)",
     "global layout precondition: HostVector class attributes equal Layout(scenario) (established by "
     "HostVector._initialize, whose contract is checked under C09/C19)",
